@@ -316,3 +316,220 @@ Proof.
   intros H. unfold receive. change (0 =? 127) with false. cbn iota.
   rewrite parse_format16 by assumption. cbn. now destruct bs.
 Qed.
+
+(* ================================================================== error mapping *)
+Definition no_nl (s : list N) : bool := forallb (fun c => negb (c =? 10)) s.
+
+(* which branch of the loop the first output line takes *)
+Theorem timeout_rule line more rc : no_nl line = true -> (rc =? 127) = false ->
+  contains (B "failed") line = false -> timeout_match line = true ->
+  receive (line ++ 10 :: more) rc = Err TimeoutError.
+Proof.
+  intros Hn Hrc H1 H2. unfold receive, parse_output. rewrite Hrc, split_line by exact Hn.
+  cbn [parse_lines]. now rewrite H1, H2.
+Qed.
+Theorem connection_rule line more rc : no_nl line = true -> (rc =? 127) = false ->
+  contains (B "failed") line = false -> timeout_match line = false ->
+  contains (B "Unable to establish") line = true ->
+  receive (line ++ 10 :: more) rc = Err ConnectionError.
+Proof.
+  intros Hn Hrc H1 H2 H3. unfold receive, parse_output. rewrite Hrc, split_line by exact Hn.
+  cbn [parse_lines]. now rewrite H1, H2, H3.
+Qed.
+Theorem long_password_rule line more rc : no_nl line = true -> (rc =? 127) = false ->
+  contains (B "failed") line = false -> timeout_match line = false ->
+  contains (B "Unable to establish") line = false -> cc_match line = None ->
+  contains (B "Could not open device") line = false ->
+  contains (B "password is longer than") line = true ->
+  receive (line ++ 10 :: more) rc = Err LongPasswordError.
+Proof.
+  intros Hn Hrc H1 H2 H3 H4 H5 H6. unfold receive, parse_output. rewrite Hrc, split_line by exact Hn.
+  cbn [parse_lines]. now rewrite H1, H2, H3, H4, H5, H6.
+Qed.
+Theorem cc_rule line more rc cc : no_nl line = true -> (rc =? 127) = false ->
+  contains (B "failed") line = false -> timeout_match line = false ->
+  contains (B "Unable to establish") line = false -> cc_match line = Some cc -> cc < 256 ->
+  receive (line ++ 10 :: more) rc = Ok [cc].
+Proof.
+  intros Hn Hrc H1 H2 H3 H4 Hcc. unfold receive, parse_output. rewrite Hrc, split_line by exact Hn.
+  cbn [parse_lines]. rewrite H1, H2, H3, H4. cbn. apply N.ltb_lt in Hcc. now rewrite Hcc.
+Qed.
+
+(* ---- hexl for every number ---- *)
+Lemma digit_char_hexlow d : hexlow (digit_char d) = true.
+Proof.
+  unfold digit_char. generalize (N.to_nat d) as k. intro k.
+  do 16 (destruct k as [|k]; [reflexivity|]). destruct k; reflexivity.
+Qed.
+Lemma digits_aux_hexlow base fuel : forall n acc,
+  forallb hexlow acc = true -> forallb hexlow (digits_aux base fuel n acc) = true.
+Proof.
+  induction fuel as [|f IH]; intros n acc H; cbn [digits_aux]; [assumption|].
+  assert (H' : forallb hexlow (digit_char (n mod base) :: acc) = true)
+    by (cbn [forallb]; now rewrite digit_char_hexlow).
+  destruct (n / base =? 0); [assumption | now apply IH].
+Qed.
+Lemma digits_aux_nonempty base fuel : forall n acc, acc <> [] -> digits_aux base fuel n acc <> [].
+Proof.
+  induction fuel as [|f IH]; intros n acc H; cbn [digits_aux]; [assumption|].
+  destruct (n / base =? 0); [discriminate | apply IH; discriminate].
+Qed.
+Lemma hexl_hexlow n : forallb hexlow (hexl n) = true.
+Proof. unfold hexl, digits. now apply digits_aux_hexlow. Qed.
+Lemma hexl_ne n : hexl n <> [].
+Proof.
+  unfold hexl, digits. cbn [digits_aux].
+  destruct (n / 16 =? 0); [discriminate | apply digits_aux_nonempty; discriminate].
+Qed.
+
+(* ---- membership as a boolean ---- *)
+Definition mem (c : N) (s : list N) : bool := existsb (N.eqb c) s.
+Lemma mem_app c a b : mem c (a ++ b) = mem c a || mem c b.
+Proof. apply existsb_app. Qed.
+Lemma mem_hex c h : hexlow c = false -> forallb hexlow h = true -> mem c h = false.
+Proof.
+  intros Hc H. unfold mem. destruct (existsb (N.eqb c) h) eqn:E; [|reflexivity].
+  apply existsb_exists in E as (x & Hx & Ex). apply N.eqb_eq in Ex. subst x.
+  rewrite forallb_forall in H. rewrite (H c Hx) in Hc. discriminate.
+Qed.
+Lemma nomem_in c s : mem c s = false -> ~ In c s.
+Proof.
+  intros H Hin. unfold mem in H. assert (existsb (N.eqb c) s = true); [|congruence].
+  apply existsb_exists. exists c. split; [assumption | apply N.eqb_refl].
+Qed.
+Lemma nomem_forallb c s : mem c s = false -> forallb (fun x => negb (x =? c)) s = true.
+Proof.
+  intros H. apply forallb_forall. intros x Hx. apply negb_true_iff.
+  destruct (x =? c) eqn:E; [|reflexivity]. apply N.eqb_eq in E. subst x.
+  exfalso. now apply (nomem_in c s H).
+Qed.
+
+(* ---- the key scanners ---- *)
+Lemma strip_prefix_app p X : strip_prefix p (p ++ X) = Some X.
+Proof. induction p as [|x p IH]; [reflexivity|]. cbn. now rewrite N.eqb_refl. Qed.
+Lemma span_hex_app h c r : forallb hexlow h = true -> hexlow c = false ->
+  span_hex (h ++ c :: r) = (h, c :: r).
+Proof.
+  induction h as [|x h IH]; intros H Hc.
+  - cbn. now rewrite Hc.
+  - cbn in H. apply andb_prop in H as [Hx Hh]. cbn. now rewrite Hx, IH.
+Qed.
+Lemma try_key_here key h rest : h <> [] -> forallb hexlow h = true ->
+  try_key key (key ++ h ++ 41 :: rest) = Some h.
+Proof.
+  intros Hne H. unfold try_key. rewrite strip_prefix_app, span_hex_app by (assumption || reflexivity).
+  destruct h; [congruence | reflexivity].
+Qed.
+Lemma last_key_later key b h : last_key key b = Some h -> forall a, last_key key (a ++ b) = Some h.
+Proof. intros H a. induction a as [|x a IH]; [assumption|]. cbn [app last_key]. now rewrite IH. Qed.
+Lemma last_key_here key s h : try_key key s = Some h -> s <> [] -> exists h', last_key key s = Some h'.
+Proof.
+  intros H Hne. destruct s as [|x s]; [congruence|]. cbn [last_key].
+  destruct (last_key key s); eauto.
+Qed.
+Lemma starts_strip p : forall s, starts p s = false -> strip_prefix p s = None.
+Proof.
+  induction p as [|x p IH]; intros s H; [discriminate|]. destruct s as [|c s]; [reflexivity|].
+  cbn in *. destruct (x =? c); [now apply IH | reflexivity].
+Qed.
+Lemma no_key_anywhere key s : contains key s = false -> last_key key s = None.
+Proof.
+  induction s as [|x s IH]; intros H; [reflexivity|].
+  cbn [contains] in H. apply orb_false_iff in H as [H1 H2]. cbn [last_key]. rewrite IH by assumption.
+  unfold try_key. now rewrite starts_strip.
+Qed.
+Lemma last_key_skip k key A T : forallb (fun c => negb (c =? k)) A = true ->
+  last_key (k :: key) (A ++ T) = last_key (k :: key) T.
+Proof.
+  induction A as [|x A IH]; intros H; [reflexivity|].
+  cbn in H. apply andb_prop in H as [Hx HA]. apply negb_true_iff in Hx.
+  cbn [app last_key]. rewrite IH by assumption. destruct (last_key (k :: key) T); [reflexivity|].
+  unfold try_key. rewrite strip_prefix_head; [reflexivity | now rewrite N.eqb_sym].
+Qed.
+
+(* ---- ipmitool's time-out line, for every channel / netfn / lun / command number ---- *)
+Theorem timeout_line_mapping chn netfn lun cmd rc : (rc =? 127) = false ->
+  receive (timeout_line chn netfn lun cmd) rc = Err TimeoutError.
+Proof.
+  intros Hrc. unfold timeout_line.
+  set (A := B "channel=0x" ++ hexl chn ++ B " netfn=0x" ++ hexl netfn ++ B " lun=0x" ++ hexl lun ++ B " ").
+  set (line := unable_prefix ++ A ++ B "cmd=0x" ++ hexl cmd ++ [41]).
+  replace (B "Unable to send RAW command (channel=0x" ++ hexl chn ++ B " netfn=0x" ++ hexl netfn ++
+           B " lun=0x" ++ hexl lun ++ B " cmd=0x" ++ hexl cmd ++ B ")" ++ [10]) with (line ++ 10 :: [])
+    by (subst line A; cbn [B bytes_of_string]; repeat (rewrite <- app_assoc; cbn [app]); reflexivity).
+  assert (M : forall c, hexlow c = false -> mem c unable_prefix = false -> mem c (B "channel=0x") = false ->
+                        mem c (B " netfn=0x") = false -> mem c (B " lun=0x") = false -> mem c (B " ") = false ->
+                        mem c (B "cmd=0x") = false -> mem c [41] = false -> mem c line = false).
+  { intros c Hc M1 M2 M3 M4 M5 M6 M7. subst line A. rewrite !mem_app.
+    rewrite M1, M2, M3, M4, M5, M6, M7, !(mem_hex c) by (assumption || apply hexl_hexlow). reflexivity. }
+  apply timeout_rule; try assumption.
+  - apply nomem_forallb. apply M; reflexivity.
+  - apply (contains_absent _ _ 105); [cbn; auto 10 | apply nomem_in; apply M; reflexivity].
+  - unfold timeout_match. subst line. rewrite strip_prefix_app.
+    destruct (last_key_here (B "cmd=0x") (B "cmd=0x" ++ hexl cmd ++ [41]) (hexl cmd)) as (h' & Hh).
+    + apply try_key_here; [apply hexl_ne | apply hexl_hexlow].
+    + discriminate.
+    + now rewrite (last_key_later _ _ _ Hh).
+Qed.
+
+(* ---- the rsp=0xNN line ---- *)
+(* the completion code scanner finds exactly cc, whatever precedes "rsp=" and whatever text
+   follows the parenthesis (as long as the text holds no further "rsp=0x") *)
+Lemma cc_match_rsp pre cc text : cc < 256 -> contains (B "rsp=0x") text = false ->
+  cc_match (unable_prefix ++ pre ++ B "rsp=0x" ++ hexl cc ++ B "): " ++ text) = Some cc.
+Proof.
+  intros Hcc Ht. unfold cc_match. rewrite strip_prefix_app.
+  destruct (hex2_facts cc Hcc) as (_ & _ & _ & Hh & Hne & Hv).
+  assert (E : last_key (B "rsp=0x") (B "rsp=0x" ++ hexl cc ++ B "): " ++ text) = Some (hexl cc)).
+  { change (B "rsp=0x" ++ hexl cc ++ B "): " ++ text)
+      with (114 :: (B "sp=0x" ++ hexl cc ++ B "): " ++ text)).
+    cbn [last_key].
+    replace (B "sp=0x" ++ hexl cc ++ B "): " ++ text) with ((B "sp=0x" ++ hexl cc ++ B "): ") ++ text)
+      by now rewrite <- !app_assoc.
+    change (B "rsp=0x") with (114 :: B "sp=0x") at 1.
+    rewrite last_key_skip.
+    - change (114 :: B "sp=0x") with (B "rsp=0x"). rewrite no_key_anywhere by assumption.
+      rewrite <- !app_assoc.
+      change (114 :: B "sp=0x" ++ hexl cc ++ B "): " ++ text)
+        with (B "rsp=0x" ++ hexl cc ++ 41 :: (B ": " ++ text)).
+      now apply try_key_here.
+    - apply nomem_forallb. rewrite !mem_app, (mem_hex 114 (hexl cc)) by (reflexivity || assumption). reflexivity. }
+  rewrite (last_key_later _ _ _ E). now rewrite Hv.
+Qed.
+
+Theorem rsp_line_mapping chn netfn lun cmd cc text rc :
+  cc < 256 -> (rc =? 127) = false -> no_nl text = true -> contains (B "rsp=0x") text = false ->
+  contains (B "failed") (rsp_body chn netfn lun cmd cc text) = false ->
+  timeout_match (rsp_body chn netfn lun cmd cc text) = false ->
+  contains (B "Unable to establish") (rsp_body chn netfn lun cmd cc text) = false ->
+  receive (rsp_line chn netfn lun cmd cc text) rc = Ok [cc].
+Proof.
+  intros Hcc Hrc Hn Ht H1 H2 H3. unfold rsp_line.
+  set (pre := B "channel=0x" ++ hexl chn ++ B " netfn=0x" ++ hexl netfn ++ B " lun=0x" ++ hexl lun ++
+              B " cmd=0x" ++ hexl cmd ++ B " ").
+  assert (E : rsp_body chn netfn lun cmd cc text =
+              unable_prefix ++ pre ++ B "rsp=0x" ++ hexl cc ++ B "): " ++ text).
+  { unfold rsp_body. subst pre. cbn [B bytes_of_string]. repeat (rewrite <- app_assoc; cbn [app]). reflexivity. }
+  apply cc_rule; try assumption.
+  - rewrite E. subst pre. unfold no_nl in *. rewrite !forallb_app, Hn.
+    rewrite !(nomem_forallb 10) by (reflexivity || (apply mem_hex; [reflexivity | apply hexl_hexlow])).
+    reflexivity.
+  - rewrite E. now apply cc_match_rsp.
+Qed.
+
+Definition rsp_case (cc : N) (f : N * N * N * N) (text : list N) : bool :=
+  let '(chn, netfn, lun, cmd) := f in
+  res_eqb bytes_eqb (receive (rsp_line chn netfn lun cmd cc text) 1) (Ok [cc]).
+Lemma rsp_sweep :
+  forallb (fun cc => forallb (fun f => forallb (rsp_case cc f) cc_texts) field_samples) all_bytes = true.
+Proof. vm_compute. reflexivity. Qed.
+
+Definition msg_case (e : err) (noise msg : list N) : bool :=
+  res_eqb bytes_eqb (receive (noise ++ msg ++ [10]) 1) (Err e) &&
+  res_eqb bytes_eqb (receive (noise ++ msg) 1) (Err e).
+Lemma connection_sweep :
+  forallb (fun n => forallb (msg_case ConnectionError n) connection_msgs) preceding_noise = true.
+Proof. vm_compute. reflexivity. Qed.
+Lemma long_password_sweep :
+  forallb (fun n => forallb (msg_case LongPasswordError n) long_password_msgs) preceding_noise = true.
+Proof. vm_compute. reflexivity. Qed.
